@@ -451,8 +451,11 @@ func fastPathExclusions(c *Ctx, fn *ssa.Function) map[*ssa.BasicBlock]bool {
 		var lockBlocks []*ssa.BasicBlock
 		for _, b := range fn.Blocks {
 			for _, ins := range b.Instrs {
-				if call, ok := ins.(*ssa.Call); ok && core.CalleeName(call) == "(*sync.RWMutex).Lock" {
-					lockBlocks = append(lockBlocks, b)
+				if call, ok := ins.(*ssa.Call); ok && core.CalleeName(call) == "(*sync.RWMutex).Lock" && len(call.Call.Args) == 1 {
+					// the session's own lock (Session.mutex), not the row lock taken on the fast path
+					if fa, isFA := call.Call.Args[0].(*ssa.FieldAddr); isFA && fa.X == fn.Params[0] {
+						lockBlocks = append(lockBlocks, b)
+					}
 				}
 			}
 		}
